@@ -4,6 +4,7 @@ one option per scalar field (on + off switch for booleans) with dest == path, an
 exactly the options the user supplied and did not ignore (value AND user-defined mark of every other field kept).
 """
 import contextlib
+import copy
 import hashlib
 import io
 import itertools
@@ -28,7 +29,18 @@ def _kinds():
         "port": (lambda: cc.PortField(default=80), "scalar", "8080", 8080, 443, "0"),
         "host": (lambda: cc.HostnameField(default="localhost"), "scalar", "example.com", "example.com", "h2", "a b"),
         "dict": (lambda: cc.DictField(default=dict), "none", None, None, {"k": 1}, None),
+        # list whose item type is a schema (only used by the schema-change histories; not part of KIND_ORDER)
+        "slist": (lambda: cc.ListField(_item_schema(), default=list), "none", None, None, None, None),
     }
+
+
+def _item_schema():
+    import cincoconfig as cc
+    item = cc.Schema()
+    item.n = cc.IntField(default=1)
+    item.opts.level = cc.IntField(default=0)  # a nested schema inside a list's item schema
+    item.opts.more.flag = cc.BoolField(default=False)
+    return item
 
 
 KIND_ORDER = ["str", "bool_f", "int", "bool_n", "float", "list", "bool_t", "port", "host", "dict"]
@@ -144,6 +156,52 @@ def _make_cfg(schema, desc, state):
 
 
 # ------------------------------------------------------------------------------------------------ checks
+def _nested_start_fails(root, desc, cfg=None):
+    """enumeration started at ANY nested schema (or the sub-configuration of it) reports exactly the fields below it, in
+    declaration order, each under its full reference path; root[path] is that field; owner and reference path agree"""
+    import cincoconfig as cc
+    fails = []
+    everything = _paths(desc)
+    for prefix, kind in everything:
+        if kind is not None:
+            continue
+        depth = prefix.count(".") + 1
+        wk = "nested-enumeration:depth%d" % depth
+        want = [p for p, _k in everything if p.startswith(prefix + ".")]
+        starts = [("schema.%s" % prefix, _chain_get(root, prefix))]
+        if cfg is not None:
+            starts.append(("config.%s" % prefix, _chain_get(cfg, prefix)))
+        for label, start in starts:
+            try:
+                got = cc.get_all_fields(start)
+            except Exception as exc:
+                fails.append(("support:get_all_fields/post:C16.nested-start-reports-reference-paths",
+                              "get_all_fields(%s) raised %s: %s" % (label, type(exc).__name__, exc), wk))
+                continue
+            if [g[0] for g in got] != want:
+                fails.append(("support:get_all_fields/post:C16.nested-start-reports-reference-paths",
+                              "get_all_fields(%s) reports %r, the fields below it have the reference paths %r"
+                              % (label, [g[0] for g in got], want), wk))
+                continue
+            for path, owner, field in got:
+                try:
+                    looked = root[path]
+                except Exception as exc:
+                    looked = exc
+                if looked is not field or _chain_get(root, path) is not field:
+                    fails.append(("support:get_all_fields/post:C16.nested-start-reports-reference-paths",
+                                  "get_all_fields(%s) reports %r for a field that is not root[%r]" % (label, path, path), wk))
+                if field._ref_path != path or cc.item_ref_path(field) != path:
+                    fails.append(("support:get_all_fields/post:C16.nested-start-reports-reference-paths",
+                                  "get_all_fields(%s) reports %r for a field whose reference path is %r"
+                                  % (label, path, field._ref_path), wk))
+                if owner._fields.get(path.rpartition(".")[2]) is not field:
+                    fails.append(("support:get_all_fields/post:C16.nested-start-reports-reference-paths",
+                                  "get_all_fields(%s): owner schema reported for %r does not hold the field" % (label, path),
+                                  wk))
+    return fails
+
+
 def _check_naming(desc, schema=None):
     """-> list of (obligation, what, witness_key).  schema: already built by some construction history whose final
     shape is desc (default: built top-down from desc)"""
@@ -189,6 +247,7 @@ def _check_naming(desc, schema=None):
     if [(a, id(b), id(c)) for a, b, c in got_cfg] != [(a, id(b), id(c)) for a, b, c in got]:
         fails.append(("support:get_all_fields/post:C16.config-same-as-schema",
                       "get_all_fields(config) differs from get_all_fields(schema)", "config"))
+    fails += _nested_start_fails(schema, desc, cfg)
     return fails
 
 
@@ -260,11 +319,12 @@ def _expected_options(desc):
     return exp
 
 
-def _check_parser(desc, target, schema=None):
+def _check_parser(desc, target, schema=None, source=None):
+    """source: the very object (schema or configuration) to generate the parser from (default: by target)"""
     import cincoconfig as cc
     fails = []
     schema = _build(desc) if schema is None else schema
-    src = schema if target == "schema" else schema()
+    src = source if source is not None else (schema if target == "schema" else schema())
     try:
         with capture_stdout():
             parser = cc.generate_argparse_parser(src, prog="rac", add_help=False)
@@ -471,7 +531,8 @@ def _history(component, mount, reads):
     if reads in ("before", "before-and-after"):
         _read_paths(comp)
         # a detached component is a schema too: the naming clauses hold for it as they stand
-        fails = [(o, w, "detached-component:%s" % component) for o, w, _k in _check_naming(children, schema=comp)]
+        fails = [(o, w, k if str(k).startswith("nested-enumeration:") else "detached-component:%s" % component)
+                 for o, w, k in _check_naming(children, schema=comp)]
         _read_paths(comp)
     after = reads in ("after-each", "before-and-after")
     root = cc.Schema()
@@ -546,10 +607,167 @@ def _check_history(component, mount, reads):
     found += _check_config_access(desc, "fresh", schema=root)
     found += _check_parser(desc, "schema", schema=root)
     seen = set()
-    for o, w, _k in found:
-        if o not in seen:  # one witness per clause and history
-            seen.add(o)
-            fails.append((o, "[component %s mounted by %s, paths read %s] %s" % (component, mount, reads, w), wk))
+    for o, w, k in found:
+        key = k if str(k).startswith("nested-enumeration:") else wk
+        if (o, key) not in seen:  # one witness per clause and history
+            seen.add((o, key))
+            fails.append((o, "[component %s mounted by %s, paths read %s] %s" % (component, mount, reads, w), key))
+    return fails
+
+
+# ------------------------------------------------------------------------------------------------ schema changes between enumerations
+CHANGE_BASE = [["leaf", "alpha", "int"],
+               ["schema", "svc", [["leaf", "host", "str"],
+                                  ["schema", "db", [["leaf", "port", "port"], ["leaf", "ssl", "bool_f"]]]]],
+               ["leaf", "servers", "slist"],
+               ["leaf", "zeta", "str"]]
+SCHEMA_CHANGES = ("add-field-two-levels-down-by-attribute", "add-field-two-levels-down-by-item-path",
+                  "add-bool-field-one-level-down", "add-field-at-root", "replace-bool-by-str", "replace-int-by-bool",
+                  "replace-leaf-at-root-by-other-class", "add-sub-schema", "add-sub-schema-by-item-path",
+                  "attach-stand-alone-schema", "attach-stand-alone-schema-at-root", "add-field-to-list-item-schema",
+                  "two-changes-in-a-row")
+CHANGE_BEFORE = ("root", "nested", "config", "all")
+CHANGE_AFTER = ("root", "nested", "config-before", "config-after")
+
+
+def _apply_change(root, change):
+    """change the live schema; -> desc of its shape afterwards"""
+    import cincoconfig as cc
+    kinds = _kinds()
+    desc = copy.deepcopy(CHANGE_BASE)
+    svc = desc[1][2]
+    db = svc[1][2]
+    if change == "add-field-two-levels-down-by-attribute":
+        root.svc.db.timeout = kinds["int"][0]()
+        db.append(["leaf", "timeout", "int"])
+    elif change == "add-field-two-levels-down-by-item-path":
+        root["svc.db.timeout"] = kinds["float"][0]()
+        db.append(["leaf", "timeout", "float"])
+    elif change == "add-bool-field-one-level-down":
+        root.svc.verbose = kinds["bool_n"][0]()
+        svc.append(["leaf", "verbose", "bool_n"])
+    elif change == "add-field-at-root":
+        root.omega = kinds["host"][0]()
+        desc.append(["leaf", "omega", "host"])
+    elif change == "replace-bool-by-str":
+        root.svc.db.ssl = kinds["str"][0]()
+        db[1] = ["leaf", "ssl", "str"]
+    elif change == "replace-int-by-bool":
+        root["svc.db.port"] = kinds["bool_t"][0]()
+        db[0] = ["leaf", "port", "bool_t"]
+    elif change == "replace-leaf-at-root-by-other-class":
+        root.alpha = kinds["list"][0]()  # scalar with an option -> no option at all
+        desc[0] = ["leaf", "alpha", "list"]
+    elif change == "add-sub-schema":
+        root.svc.cache.ttl = kinds["int"][0]()
+        root.svc.cache.on = kinds["bool_f"][0]()
+        svc.append(["schema", "cache", [["leaf", "ttl", "int"], ["leaf", "on", "bool_f"]]])
+    elif change == "add-sub-schema-by-item-path":
+        root["svc.db.pool.size"] = kinds["int"][0]()
+        db.append(["schema", "pool", [["leaf", "size", "int"]]])
+    elif change in ("attach-stand-alone-schema", "attach-stand-alone-schema-at-root"):
+        children = [["leaf", "name", "str"], ["schema", "limits", [["leaf", "max_n", "int"], ["leaf", "hard", "bool_f"]]]]
+        comp = _fill(cc.Schema(), children)
+        cc.get_all_fields(comp)  # the stand-alone schema was enumerated on its own first
+        if change == "attach-stand-alone-schema":
+            root.svc.extra = comp
+            svc.append(["schema", "extra", children])
+        else:
+            root.extra = comp
+            desc.append(["schema", "extra", children])
+    elif change == "add-field-to-list-item-schema":
+        root.servers.field.weight = kinds["int"][0]()
+    elif change == "two-changes-in-a-row":
+        root.svc.db.timeout = kinds["int"][0]()
+        cc.get_all_fields(root)
+        cc.get_all_fields(root.svc)
+        root.svc.db.retries = kinds["int"][0]()
+        db.append(["leaf", "timeout", "int"])
+        db.append(["leaf", "retries", "int"])
+    else:
+        raise ValueError(change)
+    return desc
+
+
+def _check_schema_change(change, before, after):
+    import cincoconfig as cc
+    wk = "enumeration-after-schema-change:%s/%s" % (change, after)
+    root = _fill(cc.Schema(), CHANGE_BASE)
+    cfg_before = root()
+    # first round of enumeration / parser generation / lookups, through the `before` entry point
+    if before in ("root", "all"):
+        cc.get_all_fields(root)
+    if before in ("nested", "all"):
+        cc.get_all_fields(root.svc)
+        cc.get_all_fields(root.svc.db)
+        cc.get_all_fields(root.servers.field)
+    if before in ("config", "all"):
+        cc.get_all_fields(cfg_before)
+    if before == "all":
+        cc.generate_argparse_parser(root, prog="rac", add_help=False)
+        cc.generate_argparse_parser(cfg_before, prog="rac", add_help=False)
+        for path, _k in _paths(CHANGE_BASE):
+            root[path]
+            path in cfg_before
+            cfg_before[path]
+    try:
+        desc = _apply_change(root, change)
+    except Exception as exc:
+        return [("core:Schema.__setattr__/raise:C16.changing-a-schema-is-total",
+                 "schema change %s raised %s: %s" % (change, type(exc).__name__, exc), wk)]
+    found = []
+    if after == "root":
+        found += _check_naming(desc, schema=root)
+        found += _check_parser(desc, "schema", schema=root)
+    elif after == "nested":
+        found += _nested_start_fails(root, desc)  # every nested schema first ...
+        found += _check_naming(desc, schema=root)  # ... and the root afterwards
+    elif after == "config-before":  # a configuration that exists since before the change: enumeration and parser only
+        got = cc.get_all_fields(cfg_before)
+        want = cc.get_all_fields(root)
+        if [(a, id(b), id(c)) for a, b, c in got] != [(a, id(b), id(c)) for a, b, c in want] or \
+                [g[0] for g in got] != [p for p, _k in _paths(desc)]:
+            found.append(("support:get_all_fields/post:C16.enumerates-all-paths",
+                          "get_all_fields(configuration built before the change) paths %r, current schema declares %r"
+                          % ([g[0] for g in got], [p for p, _k in _paths(desc)]), ""))
+        found += _check_parser(desc, "config", schema=root, source=cfg_before)
+    else:  # configuration built after the change
+        cfg_after = root()
+        got = cc.get_all_fields(cfg_after)
+        if [g[0] for g in got] != [p for p, _k in _paths(desc)]:
+            found.append(("support:get_all_fields/post:C16.enumerates-all-paths",
+                          "get_all_fields(configuration built after the change) paths %r, current schema declares %r"
+                          % ([g[0] for g in got], [p for p, _k in _paths(desc)]), ""))
+        found += _check_config_access(desc, "fresh", schema=root)
+        found += _check_parser(desc, "config", schema=root, source=cfg_after)
+    if after in ("root", "config-after"):  # overrides apply for the current fields
+        try:
+            pre = (root, cc.generate_argparse_parser(root if after == "root" else root(), prog="rac", add_help=False))
+        except Exception:
+            pre = None
+        lines = [ln for ln in _command_lines(desc, "quick") if len(ln) <= 1][:16]
+        for supplied in lines:
+            found += _check_override(desc, supplied, None, "fresh", pre)
+    if change == "add-field-to-list-item-schema":
+        item = root.servers.field
+        found += _check_naming([["leaf", "n", "int"],
+                                ["schema", "opts", [["leaf", "level", "int"], ["schema", "more", [["leaf", "flag", "bool_f"]]]]],
+                                ["leaf", "weight", "int"]], schema=item)
+        cfg = root()
+        try:
+            cfg.servers = [{"n": 2, "weight": 3}]
+            ok = cfg.servers[0].weight == 3 and "weight" in cfg.servers[0]
+        except Exception as exc:
+            ok = exc
+        if ok is not True:
+            found.append(("core:Config.__contains__/post:C16.declared-path-is-member",
+                          "field added to the list's item schema is not usable in a new item: %r" % (ok,), ""))
+    fails, seen = [], set()
+    for o, w, k in found:
+        key = k if str(k).startswith("nested-enumeration:") else wk
+        if (o, key) not in seen:
+            seen.add((o, key))
+            fails.append((o, "[%s; enumerated before through %s, after through %s] %s" % (change, before, after, w), key))
     return fails
 
 
@@ -735,6 +953,7 @@ def _check_ignore(index, form, state):
 
 
 CHECKS = {"naming": lambda c: _check_naming(c["schema"]),
+          "schema-change": lambda c: _check_schema_change(c["change"], c["before"], c["after"]),
           "prefilter": lambda c: _check_prefilter(c["kind"], c["text"], c["nested"]),
           "ignore-name": lambda c: _check_ignore(c["index"], c["form"], c["state"]),
           "history": lambda c: _check_history(c["component"], c["mount"], c["reads"]),
@@ -758,13 +977,21 @@ def rac(tier="quick", seed=0):
         rule="schema = tree shape (depth <= 3, width <= 3) with keys alpha/b_two/Cx by sibling position and leaf kinds "
              "rotating through 10 field kinds (quick: offsets 3i and 3i+5 mod 10 for shape i; thorough: 4 offsets); cases: (schema, naming), (schema, config access, state), "
              "(schema, parser, schema|config), (schema, command line, ignore list, state); a case is non-trivial iff "
-             "the schema has at least one field (all do); distinct by full description; (component, mount, reads) = "
+             "the schema has at least one field (all do); distinct by full description; every naming case also starts the "
+             "enumeration at each nested schema and at each sub-configuration (strict: full reference paths); (component, mount, reads) = "
              "construction history: a detached component schema is built, its reference paths are read (or not) before "
              "and/or after each mount step, it is mounted into the root, then all naming/config/parser clauses are "
-             "evaluated on the final root; (field kind, text, nested) -> parse_args + cmdline_args_override vs "
+             "evaluated on the final root; (change, before, after) -> enumerate / generate the parser / look paths up, "
+             "change the live schema, then all clauses for the CURRENT schema through another entry point; "
+             "(field kind, text, nested) -> parse_args + cmdline_args_override vs "
              "`cfg[path] = text` on a twin configuration; (ignore case, str|list, state) -> override with an ignore name that "
              "textually resembles a supplied destination: only exact destination names are ignored",
-        bound="parser pre-filtering: 18 normalising/constraining scalar field kinds x 2-9 texts (canonical, valid only after "
+        bound="schema changes between enumerations: 13 changes (field added two levels down by attribute / by item path, "
+              "bool added, field at root, bool->str, int->bool, scalar->list, sub-schema added by attribute / item path, "
+              "stand-alone schema attached nested / at root, field added to a list's item schema, two changes in a row) x 4 "
+              "first entry points (root, nested, configuration, all incl. parser and lookups) x 4 second entry points (root, "
+              "nested, configuration built before, configuration built after), <= 16 command lines each; "
+              "parser pre-filtering: 18 normalising/constraining scalar field kinds x 2-9 texts (canonical, valid only after "
               "the field's normalisation, rejected) x root/nested; ignore names: 26 (ignored name, supplied destinations) "
               "pairs in 9 textual relations (prefix/suffix/substring with and without '.' boundary, reverse, exact among "
               "lookalikes, case, option spelling) x str/list x fresh/dirty; histories: 3 components (flat, nested, depth 3) x 8 mounts (attribute, two levels, schema['a.b'] = c, "
@@ -786,11 +1013,17 @@ def rac(tier="quick", seed=0):
             for form in ("list", "str") if len(names) == 1 else ("list",):
                 for st in ("fresh", "dirty"):
                     extra.append({"check": "ignore-name", "index": index, "form": form, "state": st})
+        for change in SCHEMA_CHANGES:
+            for before in CHANGE_BEFORE:
+                for after in CHANGE_AFTER:
+                    extra.append({"check": "schema-change", "change": change, "before": before, "after": after})
         for case in extra:
             fails = CHECKS[case["check"]](case)
             rec.case(key=tuple(sorted((k, repr(v)) for k, v in case.items())), nontrivial=True,
                      sample=case if case in ({"check": "prefilter", "kind": "loglevel", "text": "DEBUG", "nested": True},
-                                             {"check": "ignore-name", "index": 0, "form": "list", "state": "fresh"}) else None)
+                                             {"check": "ignore-name", "index": 0, "form": "list", "state": "fresh"},
+                                             {"check": "schema-change", "change": "replace-bool-by-str", "before": "nested",
+                                              "after": "root"}) else None)
             for obligation, what, wk in fails:
                 rp = dict(case)
                 rp["obligation"] = obligation
